@@ -335,7 +335,9 @@ func (g *c14TiGen) dirs() string {
 	}
 	return s
 }
-func (g *c14TiGen) tcond() string { return g.r.Pick([]string{"T", "U", "I", "UN", "Query", "Nope", "E"}) }
+func (g *c14TiGen) tcond() string {
+	return g.r.Pick([]string{"T", "U", "I", "UN", "Query", "Nope", "E"})
+}
 func (g *c14TiGen) selset(d int) string {
 	n := 1 + g.r.Intn(3)
 	var xs []string
@@ -426,21 +428,8 @@ func (t *c14TiEnv) envTerm(ti *graphql.TypeInfo) string {
 	return fmt.Sprintf("(mkTenv %s %s %s %s %s %s)", t.tyOpt(ti.Type()), par, t.tyOpt(ti.InputType()), fd, dir, arg)
 }
 
-func c14TiCase(r *Rng, tb *c14Tables, env *c14TiEnv, src string, corpus bool, density int, e *Emitter) {
-	doc, err := c14Parse(src)
-	if err != nil {
-		e.Emit(Case{Group: "generator", Desc: map[string]interface{}{"source": src, "error": err.Error()}, Tags: []string{"unparsable"}})
-		return
-	}
-	tr, term := c14Convert(tb, doc)
-	attrs, modelled := env.attrs(tr)
-	opts, form := c14RandOpts(r, tb)
-	pol := c14RandPolicy(r, len(tr.nodes), density)
-	rec := &c14Recorder{tr: tr, pol: pol}
-	ti := graphql.NewTypeInfo(&graphql.TypeInfoConfig{Schema: &env.schema})
-	var obs []string
-	inner := rec.options(opts)
-	// wrap every installed function so that it first reads the TypeInfo
+// wrap every installed function so that it first reads the TypeInfo
+func c14WrapTI(inner *visitor.VisitorOptions, rec *c14Recorder, env *c14TiEnv, ti *graphql.TypeInfo, obs *[]string) *visitor.VisitorOptions {
 	wrap := func(f visitor.VisitFunc, leave bool) visitor.VisitFunc {
 		if f == nil {
 			return nil
@@ -450,7 +439,7 @@ func c14TiCase(r *Rng, tb *c14Tables, env *c14TiEnv, src string, corpus bool, de
 			if leave {
 				ph = "PLeave"
 			}
-			obs = append(obs, fmt.Sprintf("(%s, %d, %s)", ph, rec.nodeID(p.Node), env.envTerm(ti)))
+			*obs = append(*obs, fmt.Sprintf("(%s, %d, %s)", ph, rec.nodeID(p.Node), env.envTerm(ti)))
 			return f(p)
 		}
 	}
@@ -465,6 +454,64 @@ func c14TiCase(r *Rng, tb *c14Tables, env *c14TiEnv, src string, corpus bool, de
 	for k, f := range inner.LeaveKindMap {
 		inner.LeaveKindMap[k] = wrap(f, true)
 	}
+	return inner
+}
+
+// the validator's composition: VisitWithTypeInfo(typeInfo, VisitInParallel(subs...))
+func c14StackCase(r *Rng, tb *c14Tables, env *c14TiEnv, src string, density int, nsub int, e *Emitter) {
+	doc, err := c14Parse(src)
+	if err != nil {
+		e.Emit(Case{Group: "generator", Desc: map[string]interface{}{"source": src, "error": err.Error()}, Tags: []string{"unparsable"}})
+		return
+	}
+	tr, term := c14Convert(tb, doc)
+	attrs, modelled := env.attrs(tr)
+	ti := graphql.NewTypeInfo(&graphql.TypeInfoConfig{Schema: &env.schema})
+	var vos []*visitor.VisitorOptions
+	var subs []string
+	obs := make([][]string, nsub)
+	var recs []*c14Recorder
+	for i := 0; i < nsub; i++ {
+		opts, _ := c14RandOpts(r, tb)
+		pol := c14RandPolicy(r, len(tr.nodes), density)
+		rec := &c14Recorder{tr: tr, pol: pol}
+		recs = append(recs, rec)
+		vos = append(vos, c14WrapTI(rec.options(opts), rec, env, ti, &obs[i]))
+		subs = append(subs, "("+opts.coq(tb)+", "+pol.coq()+")")
+	}
+	fail := guard(func() { visitor.Visit(doc, visitor.VisitWithTypeInfo(ti, visitor.VisitInParallel(vos...)), nil) })
+	var obsT []string
+	for i := range obs {
+		if fail == "" && recs[i].bad != "" {
+			fail = recs[i].bad
+		}
+		obsT = append(obsT, coqList(obs[i]))
+	}
+	c := Case{Group: "stacked", Tags: []string{"typeinfo", fmt.Sprintf("parallel:%d", nsub), fmt.Sprintf("density:%d", density)}, NT: true, Fail: fail,
+		Desc: map[string]interface{}{"source": src, "sub_visitors": nsub, "sub_policies": strings.Join(subs, " ")}}
+	if !modelled {
+		c.Tags = append(c.Tags, "unmodelled-variable-type")
+		c.NT = false
+	} else if fail == "" {
+		c.Coq = fmt.Sprintf("StackCase (%s) %s %s %s %s", term, env.coqSch, attrs, coqList(subs), coqList(obsT))
+	}
+	e.Emit(c)
+}
+
+func c14TiCase(r *Rng, tb *c14Tables, env *c14TiEnv, src string, corpus bool, density int, e *Emitter) {
+	doc, err := c14Parse(src)
+	if err != nil {
+		e.Emit(Case{Group: "generator", Desc: map[string]interface{}{"source": src, "error": err.Error()}, Tags: []string{"unparsable"}})
+		return
+	}
+	tr, term := c14Convert(tb, doc)
+	attrs, modelled := env.attrs(tr)
+	opts, form := c14RandOpts(r, tb)
+	pol := c14RandPolicy(r, len(tr.nodes), density)
+	rec := &c14Recorder{tr: tr, pol: pol}
+	ti := graphql.NewTypeInfo(&graphql.TypeInfoConfig{Schema: &env.schema})
+	var obs []string
+	inner := c14WrapTI(rec.options(opts), rec, env, ti, &obs)
 	fail := guard(func() { visitor.Visit(doc, visitor.VisitWithTypeInfo(ti, inner), nil) })
 	tags := []string{"typeinfo", "form:" + form, fmt.Sprintf("density:%d", density)}
 	if strings.Contains(src, "... {") || strings.Contains(src, "... @") {
@@ -507,11 +554,17 @@ func c14GenTypeInfo(tier string, seed uint64, n int, tb *c14Tables, e *Emitter) 
 			idx++
 			c14TiCase(NewRng(seed, idx), tb, env, src, true, d, e)
 		}
+		idx++
+		c14StackCase(NewRng(seed, idx), tb, env, src, 5, 3, e)
 	}
 	for i := 0; i < n; i++ {
 		idx++
 		r := NewRng(seed, idx)
 		g := &c14TiGen{r: r}
-		c14TiCase(r, tb, env, g.document(), false, c14Densities(r), e)
+		if r.Chance(25) {
+			c14StackCase(r, tb, env, g.document(), c14Densities(r), 1+r.Intn(3), e)
+		} else {
+			c14TiCase(r, tb, env, g.document(), false, c14Densities(r), e)
+		}
 	}
 }
